@@ -1431,8 +1431,8 @@ var ruleAccounting = &core.Rule{ID: "R08.6", Min: 18,
 			countChainAt(f, []int{0}, used)
 		}
 		var ws []*ssa.Function
-		for w := range m.wrap {
-			if len(used[w]) > 0 {
+		for w := range used {
+			if len(used[w]) > 0 && !m.fam[w] && w.Signature.Recv() != nil && m.isState(w.Signature.Recv().Type()) {
 				ws = append(ws, w)
 			}
 		}
@@ -1452,8 +1452,14 @@ var ruleAccounting = &core.Rule{ID: "R08.6", Min: 18,
 				sort.Ints(positions)
 			}
 			chain := countChainAt(f, positions, nil)
+			for _, ci := range core.Calls(f) {
+				if h := ci.Common().StaticCallee(); h != nil && len(used[h]) > 0 && !m.fam[h] && chain[ci.Value()] {
+					s.OK(fmt.Sprintf("%s: position advanced through %s", f.Name(), callOrdinal(ci)), c.Pos(ci.Pos()), "the helper pairs consumed and inspected bytes (judged there)")
+				}
+			}
 			// range-over-literal idiom: return len(X) after a full range over parameter X
 			exempt := map[*ssa.BasicBlock]bool{}
+			lenAccounted := map[*ssa.Return]bool{}
 			for _, r := range core.Returns(f) {
 				ln, ok := r.Results[0].(*ssa.Call)
 				if !ok || !core.IsBuiltin(&ln.Call, "len") {
@@ -1479,6 +1485,7 @@ var ruleAccounting = &core.Rule{ID: "R08.6", Min: 18,
 							okIdiom = false
 						}
 					}
+					lenAccounted[r] = true
 					s.Check(okIdiom, f.Name()+": literal scanner counts one inspected byte per matched byte", c.Pos(r.Pos()), "range over the literal, one increment per iteration, returns len(literal)", "the literal scanner's inspected-byte count does not match the length it returns")
 				}
 			}
@@ -1494,7 +1501,48 @@ var ruleAccounting = &core.Rule{ID: "R08.6", Min: 18,
 					}
 				}
 				s.OK(f.Name()+": deferred inspected-byte settlement", c.Pos(st.Pos()), "counter 0,+1 per byte; one ib += counter dominating every return")
-			}
+				if !chain[k] {
+					for _, r := range core.Returns(f) {
+						lenAccounted[r] = true // the literal form: every success return is covered by the settlement
+					}
+				}
+				}
+				// a scanner that reports a length as consumed (return len(X)) outside the recognised literal forms
+				if m.fam[f] {
+				nth := 0
+				for _, r := range core.Returns(f) {
+					ln, ok := r.Results[0].(*ssa.Call)
+					if !ok || !core.IsBuiltin(&ln.Call, "len") {
+						continue
+					}
+					nth++
+					if lenAccounted[r] {
+						continue
+					}
+					touches := false
+					for _, b := range f.Blocks {
+						for _, in := range b.Instrs {
+							if st, ok := in.(*ssa.Store); ok {
+								if fa, ok := st.Addr.(*ssa.FieldAddr); ok && fa.Field == ibF && m.isState(fa.X.Type()) {
+									touches = true
+								}
+							}
+							if ci, ok := in.(ssa.CallInstruction); ok {
+								_, builtin := ci.Common().Value.(*ssa.Builtin)
+								if g := ci.Common().StaticCallee(); (g == nil && !builtin) || (g != nil && core.InMod(g) && g.Blocks != nil) {
+									touches = true
+								}
+							}
+						}
+					}
+					key := fmt.Sprintf("%s: length reported as consumed, return #%d", f.Name(), nth)
+					if !touches {
+						s.Bad(key, c.Pos(r.Pos()), "the scanner reports len(...) bytes as consumed but never advances the inspected-bytes counter: after a successful parse the two disagree, so a truncated valid document is rejected")
+					} else {
+						s.Und(key, c.Pos(r.Pos()), "the scanner reports len(...) bytes as consumed in a form whose inspected-byte accounting is not recognised")
+					}
+				}
+				}
 			// straight-line regions: maximal chains of blocks linked by single-successor / single-predecessor jumps
 			region := map[*ssa.BasicBlock]*ssa.BasicBlock{}
 			for _, b := range f.Blocks {
@@ -1611,6 +1659,29 @@ func countChainAt(f *ssa.Function, positions []int, used map[*ssa.Function]map[i
 			}
 		case *ssa.Parameter:
 			chain[v] = true
+		case *ssa.Call:
+			// a position helper: next = helper(pos), a module function (no scanner: it takes no input) from the
+			// position to the next position, accounting for what it adds
+			if h := x.Call.StaticCallee(); h != nil && core.InMod(h) && h.Blocks != nil && byteParam(h) == nil && h.Signature.Results().Len() == 1 {
+				hasInt := false
+				for _, a := range x.Call.Args {
+					if core.IsInteger(a.Type()) {
+						hasInt = true
+					}
+				}
+				if hasInt {
+					chain[v] = true
+					if used != nil {
+						if used[h] == nil {
+							used[h] = map[int]bool{}
+						}
+						used[h][0] = true
+					}
+					for _, a := range x.Call.Args {
+						mark(a)
+					}
+				}
+			}
 		case *ssa.Extract:
 			// a helper's result that is part of the count: a position handed through (next = helper(b, pos)) or a
 			// piece of the count (opening delimiter length, consumed length); the helper accounts for what it adds
@@ -1668,8 +1739,45 @@ func bulkSettlements(m *jsonModel, f *ssa.Function, ibF int) map[*ssa.Store]map[
 				continue
 			}
 			k, ok := bo.Y.(*ssa.Phi)
-			if !ok || !chain[k] {
+			if !ok {
 				continue
+			}
+			if !chain[k] {
+				// the literal scanner: the counter is the length of the common prefix with a literal X; every success
+				// return yields len(X) (or the counter) where the counter is known to have reached len(X)
+				okLit := true
+				nSucc := 0
+				for _, r := range core.Returns(f) {
+					if core.IsConstInt(r.Results[0], 0) {
+						continue
+					}
+					nSucc++
+					var x ssa.Value
+					if ln, isLen := r.Results[0].(*ssa.Call); isLen && core.IsBuiltin(&ln.Call, "len") {
+						x = ln.Call.Args[0]
+					}
+					reached := false
+					for _, de := range core.DominatingConds(r.Block()) {
+						cond, val := core.StripNot(de.Cond, de.Val)
+						cmp, isCmp := cond.(*ssa.BinOp)
+						if !isCmp || cmp.X != ssa.Value(k) {
+							continue
+						}
+						ln2, isLen := cmp.Y.(*ssa.Call)
+						if !isLen || !core.IsBuiltin(&ln2.Call, "len") || (x != nil && ln2.Call.Args[0] != x) {
+							continue
+						}
+						if (cmp.Op == token.LSS && !val) || (cmp.Op == token.GEQ && val) || (cmp.Op == token.EQL && val) || (cmp.Op == token.NEQ && !val) {
+							reached = true
+						}
+					}
+					if !(reached && (x != nil || r.Results[0] == ssa.Value(k))) {
+						okLit = false
+					}
+				}
+				if !okLit || nSucc == 0 {
+					continue
+				}
 			}
 			h := k.Block()
 			okPhi, nBack := true, 0
